@@ -648,6 +648,9 @@ func (e *Env) evalCall(x *ECall) (TV, error) {
 		return TV{a.t, tyInt}, nil
 	}
 	if pf, ok := g.c.pures[x.Fn]; ok {
+		if pf.Opaque {
+			return e.opaqueApp(pf, x)
+		}
 		return e.expandPure(pf, x)
 	}
 	if gd, ok := g.c.ghosts[x.Fn]; ok && !gd.IsVar {
@@ -880,4 +883,112 @@ func (g *Gen) frameFact(key, now, before string, locs []modLoc, onlyAllocated bo
 	}
 	return fmtf("(forall ((fr_a Int)) (! (=> %s (= (select %s fr_a) (select %s fr_a))) :pattern ((select %s fr_a))))",
 		and(guard, not(or(ex...))), now, before, now)
+}
+
+// opaqueApp: an opaque pure function is an uninterpreted function of its arguments and of the
+// heap components its body reads; the definition is available only where `reveal`ed.
+func (e *Env) opaqueApp(pf *PureFunc, x *ECall) (TV, error) {
+	g := e.g
+	if len(x.Args) != len(pf.Params) {
+		return TV{}, fmt.Errorf("%s: expected %d arguments", pf.Name, len(pf.Params))
+	}
+	var args []TV
+	for i := range x.Args {
+		a, err := e.eval(x.Args[i])
+		if err != nil {
+			return TV{}, err
+		}
+		args = append(args, a)
+	}
+	// discover the heap components the body depends on
+	saved := g.recording
+	g.recording = map[string]bool{}
+	probe := *e
+	probe.depth++
+	probe.vars = map[string]TV{}
+	probe.fn, probe.point, probe.results, probe.args = nil, nil, nil, nil
+	for i, p := range pf.Params {
+		probe.vars[p.Name] = args[i]
+	}
+	body, err := probe.eval(pf.Body)
+	deps := g.recording
+	g.recording = saved
+	if saved != nil {
+		for k := range deps {
+			saved[k] = true
+		}
+	}
+	if err != nil {
+		return TV{}, fmt.Errorf("in %s: %v", pf.Name, err)
+	}
+	var keys []string
+	for k := range deps {
+		keys = append(keys, k)
+	}
+	sortStrings(keys)
+	rt, err := g.c.parseType(pf.Ret)
+	if err != nil {
+		return TV{}, err
+	}
+	var sorts, actual []string
+	for _, k := range keys {
+		sorts = append(sorts, g.keySort[k])
+		actual = append(actual, g.get(e.st, k))
+	}
+	var ptypes []types.Type
+	for _, p := range pf.Params {
+		pt, err := g.c.parseType(p.Type)
+		if err != nil {
+			return TV{}, err
+		}
+		ptypes = append(ptypes, pt)
+		sorts = append(sorts, g.sortOf(pt))
+	}
+	for _, a := range args {
+		actual = append(actual, a.t)
+	}
+	fn := g.declareFun(sym("op."+pf.Name), sorts, g.sortOf(rt))
+	if _, done := g.opaqueDefs[pf.Name]; !done {
+		// definitional axiom over bound heap components and parameters
+		st := &State{m: map[string]string{}, base: g.entry.base}
+		var binders, bvars []string
+		for i, k := range keys {
+			v := fmtf("od_h%d", i)
+			st.m[k] = v
+			binders = append(binders, fmtf("(%s %s)", v, g.keySort[k]))
+			bvars = append(bvars, v)
+		}
+		de := &Env{g: g, st: st, old: st, vars: map[string]TV{}, depth: e.depth + 1}
+		for i, p := range pf.Params {
+			v := fmtf("od_p%d", i)
+			binders = append(binders, fmtf("(%s %s)", v, g.sortOf(ptypes[i])))
+			bvars = append(bvars, v)
+			vt := ptypes[i]
+			if isInt(vt) {
+				vt = tyInt
+			}
+			de.vars[p.Name] = TV{v, vt}
+		}
+		g.opaqueDefs[pf.Name] = "" // guard against recursion
+		db, err := de.eval(pf.Body)
+		if err != nil {
+			return TV{}, fmt.Errorf("in %s: %v", pf.Name, err)
+		}
+		lhs := app(fn, bvars...)
+		g.opaqueDefs[pf.Name] = fmtf("(forall (%s) (! (= %s %s) :pattern (%s)))", strings.Join(binders, " "), lhs, db.t, lhs)
+	}
+	_ = body
+	r := TV{app(fn, actual...), rt}
+	if isInt(rt) {
+		r.ty = tyInt
+	}
+	return r, nil
+}
+
+func sortStrings(xs []string) {
+	for i := 1; i < len(xs); i++ {
+		for j := i; j > 0 && xs[j] < xs[j-1]; j-- {
+			xs[j], xs[j-1] = xs[j-1], xs[j]
+		}
+	}
 }
